@@ -476,8 +476,13 @@ def gen_encoder(out):
     tb = top.body
     if len(tb) != 6:
         raise Unsupported("term branch: expected 6 statements, found %d" % len(tb))
-    expect_text(tb[0], "if not np.issubdtype(term.coeffs.dtype, float):\n    raise ValueError('only real coefficient "
-                       "matrices for on-site and kinetic hopping term supported')", "term branch")
+    try:
+        expect_text(tb[0], "if not np.issubdtype(term.coeffs.dtype, float):\n    raise ValueError('only real coefficient "
+                           "matrices for on-site and kinetic hopping term supported')", "term branch")
+    except Unsupported:
+        # the repaired form (proposed_fixes/C13-accept-integer-dtype-coefficients.diff)
+        expect_text(tb[0], "if not np.isrealobj(term.coeffs):\n    raise ValueError('only real coefficient "
+                           "matrices for on-site and kinetic hopping term supported')", "term branch")
     expect_text(tb[1], "if not np.allclose(term.coeffs, term.coeffs.T):\n    raise ValueError('only symmetric "
                        "coefficient matrices for on-site and kinetic hopping term supported')", "term branch")
     if not (isinstance(tb[2], ast.Assign) and ast.unparse(tb[2].targets[0]) == "id_coeff"
